@@ -13,6 +13,11 @@ the `TimeoutMixin` timer), `Common.connection_ready`, `InboundConnectionFactory`
 `_dataReceived`, the wire literals and the three time constants are *generated*
 (`WV.Gen.Transit`).  The handshake strings depend on the transit key through HKDF; here they
 are parameters of the configuration (`Cfg`), the harness passes the real ones.
+
+Two environments: `run`/`drun` (inbound connections exactly while the listening port is open) and the
+wider `runL`/`drunL`, which add LATE contenders — connections the port hands to the factory after the
+selection was made (`evAccept`, `lateLinkS`).  Theorems about the former: `WV.Props.C07`; about the
+latter: `WV.Props.C07_Late`.
 -/
 namespace WV.C07
 open WV
@@ -438,6 +443,27 @@ def addOrphan (w : World) : World × Option Err :=
 def evInbound (w : World) : Option (World × Option Err) :=
   if w.portOpen then (if w.hasKey then some (addConn w none none) else some (addOrphan w)) else none
 
+/-- has this side made its selection?  The Sender: `_winner` is set (it has written `go`); the Receiver: the
+    negotiation of one of its connections has succeeded (it has seen the sender handshake and `go`). -/
+def selected (w : World) : Bool :=
+  if w.cfg.isSender then w.winner.isSome
+  else (List.range w.n).any (fun i => match w.conns i with | some c => decide (c.negD = .ok) | none => false)
+
+/-- a LATE contender: the listening port hands the `InboundConnectionFactory` one more connection after this
+    side has made its selection — although `stopListening()` has been called by then (`listener_lifetime`).
+    `IListeningPort.stopListening()` only promises a Deferred that fires when the port is really closed; what a
+    port still delivers until then (an accept that raced with the stop, a backlog, a listener that is not a
+    `tcp.Port`) is the environment's choice, so it is an event of its own here, possible whenever there is a
+    factory and a selection.  The factory treats it like every inbound connection: `connectionWasMade` starts the
+    negotiation and adds it to `_pending_connections` — nobody is left who would cancel it: `_shutdown()` ran when
+    the selection was made, and `_listener_d` has fired.  What keeps the Sender from confirming it is
+    `connection_ready`'s test of `_winner` alone.  (Late arrivals after a FAILED `connect()` are not part of this
+    event: there the closed port is the only defence — `port_closed_once_fired`.) -/
+def evAccept (w : World) : Option (World × Option Err) :=
+  if (listenerIdx w).isSome && selected w then
+    (if w.hasKey then some (addConn w none none) else some (addOrphan w))
+  else none
+
 def evConnected (w : World) (k : Nat) : Option (World × Option Err) :=
   match w.cont[k]? with
   | some c =>
@@ -637,6 +663,18 @@ def step (w : World) : Event → World
 
 def run (w : World) (evs : List Event) : World := evs.foldl step w
 
+/-- the events of `Event` plus late contenders -/
+inductive LEvent where
+  | ev (e : Event)
+  | accept                          -- `evAccept`
+  deriving Repr
+
+def stepL (w : World) : LEvent → World
+  | .ev e => step w e
+  | .accept => match evAccept w with | some (w', _) => w' | none => w
+
+def runL (w : World) (evs : List LEvent) : World := evs.foldl stepL w
+
 /-! ## two sides: a Sender world and a Receiver world sharing links
 
 Environment (explicit): a *link* is one TCP connection (or one pairing made by the transit relay)
@@ -724,11 +762,29 @@ def drun (d : Duo) (evs : List DEvent) : Duo := evs.foldl dstep d
 def initDuo (cfgS cfgR : Cfg) (ls : Bool) (ds : Nat) (rs : List Nat) (lr : Bool) (dr : Nat) (rr : List Nat) : Duo :=
   { s := initWorld cfgS ls ds rs, r := initWorld cfgR lr dr rr, links := [] }
 
+/-- the two-sided events plus late contenders: a stranger's late arrival at either side's port (`sAccept`,
+    `rAccept`), and the Receiver's direct connector `k` reaching the Sender's port after the Sender has made
+    its selection (`lateLinkS k`: a second address of the Receiver, a slow route) — a link like any other. -/
+inductive LDEvent where
+  | d (e : DEvent)
+  | sAccept | rAccept
+  | lateLinkS (k : Nat)
+  deriving Repr
+
+def dstepL (d : Duo) : LDEvent → Duo
+  | .d e => dstep d e
+  | .sAccept => match evAccept d.s with | some (s', _) => { d with s := s' } | none => d
+  | .rAccept => match evAccept d.r with | some (r', _) => { d with r := r' } | none => d
+  | .lateLinkS k =>
+    if kindAt d.r k = some .direct then mkLink d (evAccept d.s) (evConnected d.r k) false else d
+
+def drunL (d : Duo) (evs : List LDEvent) : Duo := evs.foldl dstepL d
+
 /-! ## driver (line protocol)
 
 ```
 new <S|R> <listener 0/1> <ndirect> <relay priorities a,b,…|-> <sendThis> <expectThis> <relayHs>   -> ok
-inbound | connect | connected k | connfail k | data i hex | lost i | advance secs                -> world summary
+inbound | accept | connect | connected k | connfail k | data i hex | lost i | advance secs       -> world summary
 ```
 An operation that is not possible in the current state answers `skip`.
 -/
@@ -811,6 +867,7 @@ def drvStep (w : World) (line : String) : World × String :=
   | ["new", role, l, nd, rel, s, e, y, keys, raises] => drvNew w role l nd rel s e y keys raises
   | ["new", role, l, nd, rel, s, e, y, keys, raises, late] => drvNew w role l nd rel s e y keys raises (late == "1")
   | ["inbound"] => match evInbound w with | some p => withRaised p | none => (w, "skip")
+  | ["accept"] => match evAccept w with | some p => withRaised p | none => (w, "skip")
   | ["connect"] =>
     if w.hasKey then (match evConnect w with | some w' => (w', showWorld w') | none => (w, "skip")) else (w, "skip")
   | ["setkey"] => if w.hasKey then (w, "skip") else (let w' := step w .setKey; (w', showWorld w'))
@@ -852,7 +909,7 @@ def drvStep (w : World) (line : String) : World × String :=
 ```
 duo <lS> <ndS> <relS> <lR> <ndR> <relR> <S.sendThis> <S.expectThis> <S.relayHs> <R.relayHs>   -> ok
 S <op…> | R <op…>            one-sided operation of that side (`data` only to unlinked connections)
-link s k | link r k | link y ks kr
+link s k | link r k | link y ks kr | link sl k (late: `lateLinkS`)   |   S accept | R accept
 fwd SR l n | fwd RS l n      -> summary of both sides and the links, or `skip`
 ```
 -/
@@ -899,6 +956,14 @@ def duoOut (d : Duo) (raised : Option Err) : String :=
 def duoStep (d : Duo) : List String → Duo × String
   | ["S", "portclosed"] => (d, showDuo d)
   | ["R", "portclosed"] => (d, showDuo d)
+  | ["S", "accept"] =>
+    (match evAccept d.s with
+     | some p => let d' := dstepL d .sAccept; (d', duoOut d' p.2)
+     | none => (d, "skip"))
+  | ["R", "accept"] =>
+    (match evAccept d.r with
+     | some p => let d' := dstepL d .rAccept; (d', duoOut d' p.2)
+     | none => (d, "skip"))
   | "S" :: rest =>
     (match sideEvent d.s (fun i => sLinked d i) rest with
      | some (e, raised) => let d' := dstep d (.s e); (d', duoOut d' raised)
@@ -907,6 +972,12 @@ def duoStep (d : Duo) : List String → Duo × String
     (match sideEvent d.r (fun i => rLinked d i) rest with
      | some (e, raised) => let d' := dstep d (.r e); (d', duoOut d' raised)
      | none => (d, "skip"))
+  | ["link", "sl", k] =>
+    (match k.toNat? with
+     | some k =>
+       let d' := dstepL d (.lateLinkS k)
+       if d'.links.length = d.links.length then (d, "skip") else (d', showDuo d')
+     | none => (d, "bad-op"))
   | ["link", how, k] =>
     (match k.toNat? with
      | some k =>
